@@ -159,7 +159,7 @@ PROPS = {
     },
     'C16': {
         'modules': ['Artela.Props.C16', 'Artela.Proofs.GenFacts'],
-        'runs': [{'layer': 'tracer'}, {'layer': 'journal'}, {'layer': 'conc'}],
+        'runs': [{'layer': 'tracer'}, {'layer': 'journal'}, {'layer': 'conc'}, {'layer': 'frame'}],
         'trusted_base': TB_M1 + ['Go map iteration order is an explicit adversarial permutation argument of every query that ranges over a map'],
         'assumptions': ['NewEVM allocates a fresh tracer per EVM (generated fact) and no package-level tracer state exists'],
     },
